@@ -174,6 +174,8 @@ pub fn alphabet(cs: u32) -> Vec<Op> {
         Op::Rename { base: r, src: s("long-file-name.txt"), dst_base: r, dst: s("d/moved-long-name.txt") },
         Op::Rename { base: r, src: s("d"), dst_base: r, dst: s("q") },
         Op::Rename { base: r, src: s("e0"), dst_base: r, dst: s("d/e0") },
+        // source path with a directory component: the traversal branch of Dir::rename
+        Op::Rename { base: r, src: s("d/filler-name-1.txt"), dst_base: r, dst: s("moved-out.txt") },
         Op::Read { h: 0, len: cs + 1 },
         Op::ReadExact { h: 0, len: 2 * cs },
         Op::Write { h: 0, len: 1 },
@@ -242,6 +244,39 @@ pub fn specs(tier: &str) -> Vec<ExpSpec> {
         let c = full_cfg(w, &format!("b{w}-full"));
         let prefix = vec![Op::CreateFile { base: r, path: "f".into(), keep: Some(0) }, Op::WriteAll { h: 0, len: 3 * 512 }, Op::CreateFile { base: r, path: "d-x".into(), keep: Some(1) }];
         v.push(ExpSpec::new(c, alphabet(512), if th { 2 } else { 1 }).with_prefix(prefix));
+    }
+    // a directory whose only cluster is full, on a volume without a free cluster: creating an entry in it has to grow the
+    // directory, fails with NotEnoughSpace and gives back what it took - device calls on clean-up paths; the same in
+    // a full fixed root (create_dir allocates the new directory's cluster first and has to release it)
+    {
+        let mut c = vol::tiny_with(FatType::Fat12, 12, 16);
+        c.name = "t12-full-dir-full-volume".into();
+        let mut pfx = vec![Op::CreateDir { base: r, path: "d".into(), keep: None }, Op::CreateFile { base: r, path: "d/x".into(), keep: None }];
+        for i in 1..=4 {
+            pfx.push(Op::CreateFile { base: r, path: format!("d/filler-name-{i}.txt"), keep: None });
+        }
+        pfx.push(Op::CreateFile { base: r, path: "f".into(), keep: Some(0) });
+        pfx.push(Op::Fill { h: 0, max: 64 });
+        let alpha = vec![
+            Op::CreateFile { base: r, path: "d/y".into(), keep: None },
+            Op::CreateDir { base: r, path: "d/e".into(), keep: None },
+            Op::Rename { base: r, src: "f".into(), dst_base: r, dst: "d/moved-long-name.txt".into() },
+        ];
+        v.push(ExpSpec::new(c, alpha, 1).with_prefix(pfx));
+        // full 16-slot root, free clusters left
+        let mut c = vol::tiny_with(FatType::Fat12, 12, 16);
+        c.name = "t12-full-root".into();
+        let mut pfx = Vec::new();
+        for i in 1..=5 {
+            pfx.push(Op::CreateFile { base: r, path: format!("root-filler-{i}.txt"), keep: None });
+        }
+        pfx.push(Op::CreateFile { base: r, path: "z".into(), keep: None });
+        let alpha = vec![
+            Op::CreateDir { base: r, path: "new-directory".into(), keep: None },
+            Op::CreateFile { base: r, path: "new-file-name.txt".into(), keep: None },
+            Op::CreateDir { base: r, path: "e".into(), keep: None },
+        ];
+        v.push(ExpSpec::new(c, alpha, 1).with_prefix(pfx));
     }
     // FAT32 whose free count is unknown: stats() recounts the whole table (fault positions strided)
     {
